@@ -23,15 +23,24 @@ Recovery == {<<a, a, "wait", b>> : a \in {"s500", "refuse", "reset_after_headers
 \* ("none") whose status AND body are checked -- nothing of one exchange may leak into the next
 Leak == {<<a, "none">> : a \in {"short_body", "reset_after_headers", "client_abort_down", "slow_body", "s500"}}
          \cup {<<a, a, "none", "none">> : a \in {"short_body", "client_abort_down"}}
-SoloCases == [faults : Leak, strategy : {"round_robin"}, solo : {TRUE},
+SoloCases == [faults : Leak, strategy : {"round_robin"}, solo : {TRUE}, dead : {"none"},
               f : {[cb |-> FALSE, rl |-> FALSE, passive |-> FALSE, plugins |-> p] : p \in BOOLEAN}]
-Cases(n, strategies, feats) == [faults : SeqsUpTo(Alphabet, n) \cup Recovery, strategy : strategies, f : feats, solo : {FALSE}]
-                                \cup SoloCases
+\* dead: ACTIVE health checks are on (every 2 s, 1 s timeout) and a third configured backend is down the whole time:
+\* it refuses connections / accepts and never answers / answers garbage, so every probe of it fails below HTTP.
+\* These cases run against the real cmd/helios process: a crash of the proxy is an observation like any other
+\* (the harness waits 1.5 s first, so the probes have ejected the dead backend before the first request)
+ActiveCases == [faults : {<<"none">>, <<"s500", "none">>, <<"refuse", "none">>, <<"hang_headers", "none">>}, strategy : {"round_robin", "least_connections"},
+                solo : {FALSE}, dead : {"refuse", "hang", "garbage"},
+                f : {[cb |-> FALSE, rl |-> FALSE, passive |-> p, plugins |-> FALSE] : p \in BOOLEAN}]
+Cases(n, strategies, feats) == [faults : SeqsUpTo(Alphabet, n) \cup Recovery, strategy : strategies, f : feats, solo : {FALSE}, dead : {"none"}]
+                                \cup SoloCases \cup ActiveCases
 
 BoundMs == 5500     \* backend_read 1 s + server write 2 s + dial/transport slack
 
 \* o = [reqs : Seq([ended, ms, outcome]), probe : status, gauges : BOOLEAN (all zero), second : status of a 2nd probe]
+\* died: the proxy process ended by itself (process-level cases only)
 Check(c, o) ==
+  IF o.died THEN <<"HeliosDied">> ELSE
   (IF \E i \in DOMAIN o.reqs : ~o.reqs[i].ended THEN <<"RequestNeverEnded">> ELSE <<>>)
   \o (IF \E i \in DOMAIN o.reqs : o.reqs[i].ended /\ o.reqs[i].ms > BoundMs THEN <<"RequestTooSlow">> ELSE <<>>)
   \o (IF o.probe # 200 THEN <<"ProbeAfterFaultsFailed">> ELSE <<>>)
